@@ -400,6 +400,25 @@ def gen_c12_case(rng, cache_size=None, template="default"):
     return {"cfg": cfg, "init": init, "pdatas": pdatas, "steps": steps, "_meta": {"style": "random"}}
 
 
+def gen_lru_case(rng, size):
+    alphabet = ["a", "b", "c", "d"][:rng.choice([2, 3, 4])]
+    ops = []
+    for i in range(rng.randint(3, 16)):
+        if rng.random() < 0.5:
+            ops.append(["get", rng.choice(alphabet)])
+        else:
+            ops.append(["set", rng.choice(alphabet), i])
+    return {"kind": "lru", "size": size, "alphabet": alphabet, "ops": ops, "_meta": {"style": "lru"}}
+
+
+def shrink_lru(case):
+    base = {k: v for k, v in case.items() if not k.startswith("_")}
+    for i in range(len(base["ops"])):
+        c = copy.deepcopy(base)
+        del c["ops"][i]
+        yield c
+
+
 # --------------------------------------------------------------------------- model requests
 def c11_request(case, obs):
     cfg = case["cfg"]
